@@ -45,6 +45,11 @@ check("C16", "exhaustive enumeration of the opcode tables and magic numbers agai
       "Names a version's interpreter does not have (Erg-reserved pseudo-instructions, neighbouring-version entries of a shared table) are not judged here; whether the compiler writes only existing instructions is observed by C13/C14. One patch release per minor version.",
       "DESIGN.md §3 C16")
 
+check("C27", "exhaustive enumeration of the bundled declarations against the installed interpreters 3.7-3.13 and the typeshed stubs",
+      "Every declaration file under lib/pystd is imported through the compiler (`m = pyimport M`); every public entry of the resulting module context, under the Python name code generation would emit (VarInfo.py_name), must be an attribute of importlib.import_module(M) in at least one installed interpreter 3.7-3.13 or be defined in any platform/version branch of M's typeshed stub.",
+      "Non-Linux platforms are represented by typeshed only; nested attributes (methods of declared classes) are outside the statement ('top-level declaration') and not checked.",
+      "DESIGN.md §3 C27")
+
 NOT_APPLICABLE = {}
 
 def main():
